@@ -22,6 +22,14 @@ def rewrite_text(text, r):
     """Conservative neutral rewrite of arbitrary source text (used for repo snippets)."""
     out = []
     for line in text.split('\n'):
+        md = re.fullmatch(r'(\s*(?:\w+:\s*|\d+\s+)?)(data)(\s+)([^"\':]*)', line, re.I)
+        if md:
+            # blanks (spaces and TABs) around unquoted DATA items and their commas are not part of the items
+            items = [it.strip() for it in md.group(4).split(',')]
+            seps = [r.choice([',', ', ', ' , ', ',\t', '\t,\t', '  ,  ']) for _ in items[1:]]
+            body = items[0] + ''.join(sp + it for sp, it in zip(seps, items[1:]))
+            out.append(md.group(1) + md.group(2) + r.choice([' ', '  ', '\t']) + body + r.choice(['', ' ', '\t', ' \t ']))
+            continue
         if re.search(r'\bdata\b', line, re.I) or re.search(r"\brem\b|'", line, re.I):
             out.append(line)
             continue
@@ -159,6 +167,8 @@ def run_case(case):
           'sections_differ_behaviour_equal': 0, 'rejected_both': 0, 'rules_used': []}
     viol = []
     cfgs = [(0, False), (2, True)] if case['vseed'] % 3 else [(1, False), (2, False)]
+    if case['src'] == 'tour':
+        cfgs = [(0, True), (2, False)] if case['idx'] % 2 else [(1, False), (2, True)]     # always one with debug info
     nontrivial = False
     for cfg in cfgs[:1 if case['src'] == 'repo' else 2]:
         base = diff.observe(text, cfg, script, max_ticks=40000)
@@ -179,9 +189,11 @@ def run_case(case):
                 continue
             if vt != text:
                 nontrivial = True
-            if all(base['sections'].get(s) == o['sections'].get(s) for s in (1, 2, 3, 4)):
+            needs_debug_section = cfg[1] and re.search(r'\bresume\b', text, re.I) is not None
+            if all(base['sections'].get(s) == o['sections'].get(s) for s in (1, 2, 3, 4)) and not needs_debug_section:
                 st['sections_equal'] += 1
                 continue
+            # (programs that RESUME also depend on the debug section: equal code sections do not settle their behaviour)
             if 'hist' not in o or 'hist' not in base:
                 viol.append(V('C14:load-crash', 'module failed to load'))
                 continue
